@@ -82,6 +82,7 @@ def facts_dir(config="main", repo=REPO, quiet=False):
         th = tree_hash(repo)
         out = os.path.join(CACHE, "facts", "%s-%s" % (th, config))
         if os.path.exists(os.path.join(out, "DONE")):
+            os.utime(out, None)   # eviction below is least-recently-used
             return out
         cfg = CONFIGS[config]
         tmp = out + ".tmp"
